@@ -267,12 +267,13 @@ def run(ctx):
     binary = ctx.build("vars")
     if ctx.replay_in:
         return run_replay(ctx, binary)
-    base, deep = ("2", "3") if quick else ("3", "4w")
+    base, deep1, deep2 = ("2", "3", "3") if quick else ("3", "4w", "4")  # catalog 2 is too large for the wide depth-4 menus
     chosen, obs, by_id, nvalid, nflag, scope = [], [], {}, 0, 0, []
     sampled = False
     for cat in (1, 2):
         ctx._c06_cat = cat
         sfx = CFG_SFX[cat]
+        deep = deep1 if cat == 1 else deep2
         # ---- 1./2. model checking of the laws of the definition over the whole case space + generation ----
         header, all_base = generate(ctx, "Gen_Coerce_%s%s.cfg" % (base, sfx), "mc-laws+gen-D%s-cat%d" % (base, cat))
         _, all_deep = generate(ctx, "Gen_Coerce_%s%s.cfg" % (deep, sfx), "mc-laws+gen-D%s-cat%d" % (deep, cat))
